@@ -278,7 +278,7 @@ Qed.
 Lemma send_msg_read_index_response_ext r m r' : send_msg_read_index_response r m = Ok r' -> ext r r'.
 Proof.
   unfold send_msg_read_index_response. intros H.
-  destruct (is_singleton _); [eapply respond_read_index_ext; eassumption|].
+  destruct (_ && is_singleton _); [eapply respond_read_index_ext; eassumption|].
   inv_ok; fwd.
   - match goal with E : ro_recv_ack _ _ _ = Ok _ |- _ => apply ro_recv_ack_option in E end.
     eapply ext_trans; [apply set_ro_ext; eassumption|assumption].
